@@ -31,6 +31,47 @@ func init() {
 
 var c18Strings = []string{"plain", "with space", "a&b=c", "quote\"d", "per%cent", "unié中", "plus+sign", "semi;colon", "que?stion", "slash/es", "#hash", "new\nline", "{brace}", "[brack]", "colon: space", "- dash", "true", "123", "null", "~", "'single'", "tab\there"}
 
+// c18IllValues: wrong-typed values by name (what a typed encoding can carry).
+var c18IllValues = map[string]interface{}{
+	"number":      float64(5),
+	"bool":        true,
+	"map":         map[string]interface{}{"not": "expected"},
+	"emptylist":   []interface{}{},
+	"numlist":     []interface{}{float64(1), float64(2)},
+	"strlist":     []interface{}{"true"},
+	"strlist2":    []interface{}{"tr", "ue"},
+	"maplist":     []interface{}{map[string]interface{}{"a": "b"}},
+	"word":        "maybe",
+	"emptystring": "",
+	"null":        nil,
+}
+
+// c18IllCells enumerates (operation, parameter, wrong value) triples.  A
+// string parameter legitimately arrives as a list of strings (query strings
+// and forms deliver lists) and as any scalar that has a string form, so only
+// maps and lists of non-strings are ill-typed for it; a map parameter is
+// ill-typed as a number, a boolean or a list; a boolean parameter is
+// ill-typed as anything that is not a boolean or the strings true/false.
+func c18IllCells() [][3]string {
+	var out [][3]string
+	add := func(ops []string, param string, vals []string) {
+		for _, o := range ops {
+			for _, v := range vals {
+				out = append(out, [3]string{o, param, v})
+			}
+		}
+	}
+	add([]string{"search", "listrules"}, "inherited", []string{"number", "map", "emptylist", "numlist", "strlist", "strlist2", "maplist"}) // (a string that is not true/false reads as false: a value, not a type, question - not demanded)
+	add([]string{"getfact", "remfact", "remrule", "enable"}, "id", []string{"map", "numlist", "maplist"})
+	add([]string{"addfact"}, "fact", []string{"number", "bool", "numlist", "emptylist"})
+	add([]string{"addrule"}, "rule", []string{"number", "bool", "numlist", "emptylist"})
+	add([]string{"search"}, "pattern", []string{"number", "bool", "numlist", "emptylist"})
+	add([]string{"event"}, "event", []string{"number", "bool", "numlist", "emptylist"})
+	add([]string{"query"}, "query", []string{"number", "bool", "numlist", "emptylist"})
+	add([]string{"addfact", "getfact", "search", "event", "listrules"}, "location", []string{"map", "numlist", "maplist"})
+	return out
+}
+
 func genC18(r *h.Rng, tier string, idx int) *h.Plan {
 	p := &h.Plan{Cfg: map[string]interface{}{}}
 	p.Cfg["state"] = r.Pick([]string{"indexed", "linear"})
@@ -42,7 +83,7 @@ func genC18(r *h.Rng, tier string, idx int) *h.Plan {
 	str := func() string { return r.Pick(c18Strings) }
 	for i := 0; i < n; i++ {
 		loc := r.Pick(locs)
-		switch r.Weighted([]int{8, 3, 2, 4, 3, 1, 2, 1, 3, 2, 1, 3}) {
+		switch r.Weighted([]int{8, 3, 2, 4, 3, 1, 2, 1, 3, 2, 1, 3, 4}) {
 		case 0:
 			f := map[string]interface{}{"k": str(), "n": float64(r.Range(0, 3))}
 			if r.P(1, 3) {
@@ -82,6 +123,11 @@ func genC18(r *h.Rng, tier string, idx int) *h.Plan {
 		case 11:
 			// error cases: missing parameter, ill-typed parameter, unknown URI, failing operation
 			p.Ops = append(p.Ops, h.Op{K: "bad", Loc: loc, S: r.Pick([]string{"missing-location", "missing-fact", "fact-not-json", "fact-is-string", "unknown-uri", "get-unknown-id", "rule-without-action", "pattern-missing", "id-is-map"})})
+		case 12:
+			// ill-typed parameter, systematically: (operation, parameter, wrong value)
+			cells := c18IllCells()
+			c := cells[r.Intn(len(cells))]
+			p.Ops = append(p.Ops, h.Op{K: "bad", Loc: loc, S: "ill", RK: c[0], WK: c[1], Sub: []h.Op{{K: "v", S: c[2]}}})
 		}
 	}
 	return p
@@ -137,6 +183,28 @@ func c18Request(op h.Op) (uri string, params map[string]interface{}) {
 		uri = "/loc/admin/clear"
 	case "bad":
 		switch op.S {
+		case "ill":
+			// a valid request of the base operation with one parameter replaced
+			base := h.Op{K: op.RK, Loc: op.Loc, Id: "i1", B: true}
+			switch op.RK {
+			case "addfact":
+				base.J = map[string]interface{}{"k": "v"}
+			case "addrule":
+				base.Id = "r1"
+				base.J = map[string]interface{}{"when": map[string]interface{}{"pattern": map[string]interface{}{"ev": "go"}}, "action": map[string]interface{}{"code": "1"}}
+			case "remrule", "enable":
+				base.Id = "r1"
+			case "search":
+				base.J = map[string]interface{}{"k": "?v"}
+			case "event":
+				base.J = map[string]interface{}{"ev": "go"}
+			case "query":
+				base.J = map[string]interface{}{"pattern": map[string]interface{}{"k": "?v"}}
+			}
+			uri, params = c18Request(base)
+			if len(op.Sub) > 0 {
+				params[op.WK] = h.Clone(c18IllValues[op.Sub[0].S])
+			}
 		case "missing-location":
 			uri = "/loc/facts/add"
 			params = map[string]interface{}{"fact": map[string]interface{}{"k": "v"}}
@@ -302,6 +370,13 @@ func c18Render(rendering, prefix string, uri string, params map[string]interface
 	return "", "", "", "", false
 }
 
+func c18Cell(op h.Op) string {
+	if op.S != "ill" || len(op.Sub) == 0 {
+		return ""
+	}
+	return ":" + op.RK + "." + op.WK + "=" + op.Sub[0].S
+}
+
 func prefixOnly(prefix string) string {
 	if prefix == "/api" || prefix == "/v1.0/api" {
 		return prefix
@@ -374,6 +449,9 @@ func execC18(t *testing.T, plan *h.Plan, trace bool) *h.Result {
 			for _, rnd := range c18Renderings {
 				e := engines[rnd]
 				var oc c18Outcome
+				if op.K == "bad" && op.S == "ill" && (rnd == "query" || rnd == "form") {
+					continue // these encodings carry strings only
+				}
 				if rnd == "map" {
 					// the generic request map, as any transport hands it to the service
 					m := map[string]interface{}{"uri": prefix + uri}
@@ -455,7 +533,7 @@ func execC18(t *testing.T, plan *h.Plan, trace bool) *h.Result {
 				}
 				if oc.Err != want.Err {
 					if want.Err {
-						fail("error-reported-as-success", rnd+":"+op.K+":"+op.S, "%s rendering of %s (%s) succeeded with %q; it must be refused", rnd, op.K+":"+op.S, h.Canon(params), h.Trunc(oc.Raw, 200))
+						fail("error-reported-as-success", rnd+":"+op.K+":"+op.S+c18Cell(op), "%s rendering of %s (%s) succeeded with %q; it must be refused", rnd, op.K+":"+op.S, h.Canon(params), h.Trunc(oc.Raw, 200))
 					} else {
 						fail("encoding-changes-outcome", rnd+":"+op.K, "%s rendering of %s (%s) failed (HTTP %d, %q); the direct call succeeds", rnd, op.K, h.Canon(params), oc.Status, h.Trunc(oc.Raw, 200))
 					}
